@@ -4,59 +4,95 @@
 From Coq Require Import Sorting.Sorted RelationClasses.
 From PV Require Import Base.Prelude Wire.SeqSet RefModel.Flags RefModel.Model RefModel.Spec
   RefModel.BoxLemmas RefModel.AddrProofs RefModel.CompareProofs RefModel.LoopProofs
-  RefModel.SimBase RefModel.SimStore RefModel.SimOther.
+  RefModel.SimBase RefModel.SimStore RefModel.SimOther RefModel.SimNew RefModel.InitOk.
 Local Open Scope N_scope.
 
-Lemma sim_step st c : Inv st -> sim_ok st c.
+(* ---- one step: model = spec, invariant kept.  The state is either in sync
+   ([Inv]) or its selection has lost its mailbox ([InvGone]); no mailbox is called GONE *)
+Definition Good (st : state) : Prop := InvW st /\ lookup GONE (st_boxes st) = None.
+
+Lemma sim_stepW st c : Good st -> wf_cmd c -> sim_okW st c.
 Proof.
-  intros HI. destruct c.
-  - apply sim_select, HI.
-  - apply sim_append, HI.
-  - apply sim_store, HI.
-  - apply sim_expunge, HI.
-  - apply sim_copy, HI.
-  - apply sim_move, HI.
-  - apply sim_fetch, HI.
-  - apply sim_close, HI.
+  intros [[HI|HG] Hno] Hwf; [|apply sim_gone; assumption].
+  destruct c.
+  - apply sim_ok_W, sim_select, HI.
+  - apply sim_ok_W, sim_append, HI.
+  - apply sim_ok_W, sim_store, HI.
+  - apply sim_ok_W, sim_expunge, HI.
+  - apply sim_ok_W, sim_copy, HI.
+  - apply sim_ok_W, sim_move, HI.
+  - apply sim_ok_W, sim_fetch, HI.
+  - apply sim_ok_W, sim_close, HI.
+  - apply sim_ok_W, sim_noop, HI.
+  - apply sim_ok_W, sim_check, HI.
+  - apply sim_ok_W, sim_status, HI.
+  - apply sim_ok_W, sim_search, HI.
+  - apply sim_ok_W, sim_create, HI.
+  - apply sim_ok_W, sim_delete, HI.
+  - apply sim_rename; [exact HI|exact Hwf|exact Hno].
 Qed.
 
-Theorem refines prog : forall st, Inv st ->
+(* no command makes a mailbox called GONE (seen on the spec, whose mailboxes are the model's) *)
+Lemma nogone_set_box n b bs : lookup GONE bs = None -> lookup GONE (set_box n b bs) = None.
+Proof.
+  intros H. destruct (N.eq_dec n GONE) as [->|Hne].
+  - rewrite lookup_set_box_same, H. reflexivity.
+  - rewrite lookup_set_box_other by congruence. exact H.
+Qed.
+Lemma nogone_app bs n b : lookup GONE bs = None -> n <> GONE -> lookup GONE (bs ++ [(n, b)]) = None.
+Proof.
+  intros H Hn. rewrite lookup_app, H. cbn [lookup].
+  destruct (n =? GONE) eqn:E; [apply N.eqb_eq in E; congruence|reflexivity].
+Qed.
+Lemma nogone_del n bs : lookup GONE bs = None -> lookup GONE (del_box n bs) = None.
+Proof.
+  intros H. destruct (N.eq_dec GONE n) as [<-|Hne]; [apply lookup_del_same|].
+  rewrite lookup_del_other by exact Hne. exact H.
+Qed.
+
+Lemma spec_nogone sp c : wf_cmd c -> lookup GONE (sp_boxes sp) = None ->
+  lookup GONE (sp_boxes (fst (spec_step sp c))) = None.
+Proof.
+  intros Hwf H.
+  destruct c; cbn [spec_step];
+    unfold spec_select, spec_append, spec_store, spec_expunge, spec_copy, spec_move,
+           spec_fetch, spec_close, spec_noop, spec_status, spec_search, spec_create,
+           spec_delete, spec_rename, names_done, sreply, deliver, sset;
+    repeat match goal with
+           | |- context [match ?x with _ => _ end] =>
+             match type of x with
+             | option _ => destruct x
+             | bool => destruct x
+             | backend => destruct x
+             | (_ * _)%type => destruct x
+             end
+           end; cbn [fst sp_boxes];
+    repeat first [exact H | apply nogone_set_box | apply nogone_del
+                 | (apply nogone_app; [|first [exact Hwf | unfold GONE, INBOX; lia]])].
+Qed.
+
+Theorem refines prog : forall st, Good st -> Forall wf_cmd prog ->
   snd (run st prog) = snd (spec_run (abs st) prog) /\
   abs (fst (run st prog)) = fst (spec_run (abs st) prog) /\
-  Inv (fst (run st prog)).
+  Good (fst (run st prog)).
 Proof.
-  induction prog as [|c r IH]; intros st HI; cbn [run spec_run].
-  - cbn. split; [reflexivity|split; [reflexivity|exact HI]].
-  - destruct (sim_step st c HI) as (Ho & Ha & HI1).
+  induction prog as [|c r IH]; intros st HG Hwf; cbn [run spec_run].
+  - cbn. split; [reflexivity|split; [reflexivity|exact HG]].
+  - inversion Hwf as [|? ? Hc Hr]; subst.
+    destruct (sim_stepW st c HG Hc) as (Ho & Ha & HI1).
+    pose proof (spec_nogone (abs st) c Hc (proj2 HG)) as Hno.
     destruct (step st c) as [st1 o] eqn:Es. destruct (spec_step (abs st) c) as [sp1 o'] eqn:Ep.
     cbn [fst snd] in *. subst o' sp1.
-    destruct (IH st1 HI1) as (Hos & Has & HI2).
+    assert (HG1 : Good st1) by (split; [exact HI1|exact Hno]).
+    destruct (IH st1 HG1 Hr) as (Hos & Has & HI2).
     destruct (run st1 r) as [st2 os] eqn:Er. destruct (spec_run (abs st1) r) as [sp2 os'] eqn:Epr.
     cbn [fst snd] in *. subst os' sp2. split; [reflexivity|split; [reflexivity|exact HI2]].
 Qed.
 
-Theorem refines_main prog st : Inv st ->
+Theorem refines_main prog st : Good st -> Forall wf_cmd prog ->
   snd (run st prog) = snd (spec_run (abs st) prog) /\
   abs (fst (run st prog)) = fst (spec_run (abs st) prog).
-Proof. intros HI. destruct (refines prog st HI) as (H1 & H2 & _). split; assumption. Qed.
-
-(* ---- the invariant, decidably, for states without a selection *)
-Fixpoint asc_b (l : list N) : bool :=
-  match l with
-  | [] => true
-  | x :: r => match r with [] => true | y :: _ => (x <? y) && asc_b r end
-  end.
-Definition box_ok_b (b : mbox) : bool :=
-  asc_b (uids_of (b_msgs b))
-  && forallb (fun u => (0 <? u) && (u <=? b_maxuid b)) (uids_of (b_msgs b)).
-Definition maildir_ok_b (bs : boxes) : bool :=
-  match bs with
-  | [] => true
-  | (_, b0) :: _ =>
-    negb (mem FWild (b_perm b0))
-    && forallb (fun nb => fset_eqb (b_perm (snd nb)) (b_perm b0) && subset (b_perm b0) (b_perm (snd nb))
-                          && forallb (fun m => subset (m_flags m) (b_perm (snd nb))) (b_msgs (snd nb))) bs
-  end.
+Proof. intros HI Hw. destruct (refines prog st HI Hw) as (H1 & H2 & _). split; assumption. Qed.
 
 Lemma asc_b_sound l : asc_b l = true -> asc l.
 Proof.
@@ -75,45 +111,29 @@ Proof.
     apply andb_true_iff in H2. rewrite N.ltb_lt, N.leb_le in H2. exact H2.
 Qed.
 
-(* states the harness starts from: nothing selected, well-formed mailboxes;
-   for dict nothing more is needed *)
-Definition init_ok (st : state) : bool :=
-  match st_sel st with
-  | Some _ => false
-  | None => forallb (fun nb => box_ok_b (snd nb)) (st_boxes st)
-            && match st_bk st with Dict => true | Maildir => false end
-  end.
-
-Lemma init_ok_Inv st : init_ok st = true -> Inv st.
+Lemma init_ok_Good st : init_ok st = true -> Good st.
 Proof.
   unfold init_ok. destruct (st_sel st) eqn:Es; [discriminate|]. intros H.
-  apply andb_true_iff in H. destruct H as [H1 H2]. split; [|split].
+  apply andb_true_iff in H. destruct H as [H H3]. apply andb_true_iff in H. destruct H as [H1 H2].
+  split; [left; split; [|split]|].
   - apply Forall_forall. intros nb Hnb. rewrite forallb_forall in H1. apply box_ok_b_sound, H1, Hnb.
   - intros Hk. rewrite Hk in H2. discriminate.
   - rewrite Es. exact I.
+  - destruct (lookup GONE (st_boxes st)); [discriminate|reflexivity].
 Qed.
 
-(* maildir: one keyword table everywhere, stored flags inside it *)
-Definition init_ok_maildir (st : state) (P : fset) : bool :=
-  match st_sel st with
-  | Some _ => false
-  | None => forallb (fun nb => box_ok_b (snd nb)) (st_boxes st)
-            && negb (mem FWild P)
-            && forallb (fun nb => forallb (fun m => subset (m_flags m) P) (b_msgs (snd nb))) (st_boxes st)
-  end.
-
-Lemma init_ok_maildir_Inv st P :
-  init_ok_maildir st P = true -> Forall (fun nb => b_perm (snd nb) = P) (st_boxes st) -> Inv st.
+Lemma init_ok_maildir_Good st : init_ok_maildir st = true -> Good st.
 Proof.
-  unfold init_ok_maildir. destruct (st_sel st) eqn:Es; [discriminate|]. intros H HP.
+  unfold init_ok_maildir. destruct (st_sel st) eqn:Es; [discriminate|]. intros H.
   apply andb_true_iff in H. destruct H as [H H3]. apply andb_true_iff in H. destruct H as [H1 H2].
-  split; [|split].
+  split; [left; split; [|split]|].
   - apply Forall_forall. intros nb Hnb. rewrite forallb_forall in H1. apply box_ok_b_sound, H1, Hnb.
-  - intros _. exists P. split; [apply negb_true_iff, H2|].
-    apply Forall_forall. intros nb Hnb. rewrite Forall_forall in HP. split; [apply HP, Hnb|].
-    apply Forall_forall. intros m Hm. rewrite forallb_forall in H3. specialize (H3 nb Hnb).
-    rewrite forallb_forall in H3. apply H3, Hm.
+  - intros _. apply Forall_forall. intros nb Hnb. rewrite forallb_forall in H2.
+    specialize (H2 nb Hnb). apply andb_true_iff in H2. destruct H2 as [Hw HF]. split.
+    + apply negb_true_iff, Hw.
+    + apply Forall_forall. intros m Hm. rewrite forallb_forall in HF. apply HF, Hm.
   - rewrite Es. exact I.
+  - destruct (lookup GONE (st_boxes st)); [discriminate|reflexivity].
 Qed.
 
 (* ---- what the spec's STORE does, flag by flag (dict: stores any flag) *)
@@ -176,22 +196,24 @@ Lemma spec_no_expungeissued st c : o_code (snd (spec_step st c)) <> CExpungeIssu
 Proof.
   destruct c; cbn [spec_step];
     unfold spec_select, spec_append, spec_store, spec_expunge, spec_copy, spec_move,
-           spec_fetch, spec_close, sreply, deliver, scopy_code;
+           spec_fetch, spec_close, spec_noop, spec_status, spec_search, spec_create,
+           spec_delete, spec_rename, names_done, sreply, deliver, scopy_code;
     repeat match goal with
            | |- context [match ?x with _ => _ end] =>
              match type of x with
              | option _ => destruct x
              | bool => destruct x
+             | backend => destruct x
              | list _ => destruct x
              | (_ * _)%type => destruct x
              end
            end; cbn; discriminate.
 Qed.
 
-Theorem no_expungeissued prog st : Inv st ->
+Theorem no_expungeissued prog st : Good st -> Forall wf_cmd prog ->
   Forall (fun o => o_code o <> CExpungeIssued) (snd (run st prog)).
 Proof.
-  intros HI. destruct (refines prog st HI) as (Ho & _ & _). rewrite Ho. clear Ho HI.
+  intros HI Hw. destruct (refines prog st HI Hw) as (Ho & _ & _). rewrite Ho. clear Ho HI Hw.
   generalize (abs st). induction prog as [|c r IH]; intros sp; cbn [spec_run]; [constructor|].
   pose proof (spec_no_expungeissued sp c) as Hc.
   destruct (spec_step sp c) as [sp1 o]. specialize (IH sp1).
@@ -202,14 +224,16 @@ Qed.
 Definition ex_boxes : boxes :=
   [(0, mkBox [mkMsg 101 [FSeen] 10 1 false; mkMsg 102 [FAnswered; FSeen] 20 2 false;
               mkMsg 103 [FFlagged] 30 3 false; mkMsg 104 [] 40 4 true] 104 false
-             [FSeen; FAnswered; FFlagged; FDeleted; FDraft]);
-   (1, mkBox [mkMsg 101 [FSeen] 50 5 false] 101 false [FSeen; FAnswered; FFlagged; FDeleted; FDraft]);
-   (2, mkBox [mkMsg 101 [] 60 6 true] 101 true [FSeen; FAnswered; FFlagged; FDeleted; FDraft])].
+             [FSeen; FAnswered; FFlagged; FDeleted; FDraft] 7);
+   (1, mkBox [mkMsg 101 [FSeen] 50 5 false] 101 false [FSeen; FAnswered; FFlagged; FDeleted; FDraft] 7);
+   (2, mkBox [mkMsg 101 [] 60 6 true] 101 true [FSeen; FAnswered; FFlagged; FDeleted; FDraft] 7)].
 Definition ex_prog : list cmd :=
   [CSelect 0 false;
    CStore false [SRange SMax (SNum 2); SOne (SNum 2)] OpAdd false [FDeleted; FKw 0; FRecent];
    CFetch true [SRange (SNum 103) SMax] [mkAttr AFlags false false; mkAttr ABody true true];
-   CAppend 0 [FSeen; FKw 1; FRecent] 70 7;
+   CAppend 0 [mkAmsg [FSeen; FKw 1; FRecent] 70 7 false; mkAmsg [] 71 8 false];
+   CStatus 0; CSearch true [KFlag FSeen true; KNot (KSet false [SOne (SNum 1)])]; CNoop; CCheck;
+   CCreate 4 77; CRename 1 5 0; CDelete 4;
    CCopy false [SOne (SNum 1); SOne SMax] 0;
    CMove true [SRange (SNum 1) (SNum 102)] 1;
    CStore true [SOne (SNum 103)] OpReplace true [FDeleted];
@@ -220,7 +244,7 @@ Example refines_example :
   let st := mkState Dict ex_boxes None in
   init_ok st = true /\
   map o_cond (snd (run st ex_prog))
-  = [OK; OK; OK; OK; OK; OK; OK; OK; OK; NO; OK; OK; BAD; OK; NO; OK] /\
+  = [OK; OK; OK; OK; OK; OK; OK; OK; OK; OK; OK; OK; NO; OK; OK; OK; NO; OK; OK; BAD; NO; BAD; BAD] /\
   snd (run st ex_prog) = snd (spec_run (abs st) ex_prog) /\
   abs (fst (run st ex_prog)) = fst (spec_run (abs st) ex_prog).
 Proof. vm_compute. repeat split. Qed.
